@@ -266,6 +266,17 @@ class Program:
                 m = self.modules[mn]
                 tail = rest[k:]
                 if not tail:
+                    # `from pkg import name` where pkg/__init__ rebinds `name` (from .name import name) yields the
+                    # rebinding, not the submodule
+                    if k >= 1:
+                        parent = '.'.join(rest[:k - 1])
+                        pm = self.modules.get(parent)
+                        if pm is not None and pm.is_pkg and rest[k - 1] in pm.imports:
+                            tgt = pm.imports[rest[k - 1]]
+                            if tgt != dotted:
+                                r = self.resolve_dotted(tgt, _depth + 1)
+                                if r and (r.startswith('func:') or r.startswith('class:')):
+                                    return r
                     return 'module:' + mn
                 head = tail[0]
                 if head in m.defs:
